@@ -35,7 +35,7 @@ T = 8
 
 def pattern(t, n, salt=0):
     """deterministic input bits: step t, width n"""
-    return [((t * 7 + i * 3 + salt * 5 + (t * t) // 3) % 5) in (0, 1, 3) for i in range(n)]
+    return [((t * 7 + i * 3 + salt * 2 + (t * t) // 3) % 5) in (0, 1, 3) for i in range(n)]
 
 
 def records_state(mod, prefix=""):
@@ -203,6 +203,13 @@ class Zoo:
         self.holder = self.holder.to(torch.float64)
         self.mods = {"neurons": self.holder}
 
+    def build_neurons_evalmode(self):
+        """the bare neuron groups, trained (adaptation learning) for the first step and run in evaluation mode from then on, with a
+        drive that crosses the resting threshold but not an adapted one: a target that was itself last stepped in evaluation mode
+        must follow the checkpoint's learned adaptation, not its own"""
+        self.build_neurons()
+        self.eval_from = 1
+
     def build_classifier(self):
         self.clf = MaxRateClassifier((3,), 2, decay=0.1)
         self.n_in = 3
@@ -217,10 +224,12 @@ class Zoo:
             for r in self.holder.children():
                 r(x)
             return {"peek:" + n: r.peek().clone() for n, r in self.holder.named_children()}
-        if self.name in ("neurons", "neurons64"):
+        if self.name in ("neurons", "neurons64", "neurons_evalmode"):
             outs = {}
+            if getattr(self, "eval_from", None) is not None:
+                self.holder.train(t < self.eval_from)
             for n, m in self.holder.named_children():
-                x = torch.tensor([[float(b) for b in bits]], dtype=m.voltage.dtype if self.name == "neurons64" else torch.float32) * (30.0 if n == "lif_int" else 2.5)
+                x = torch.tensor([[float(b) for b in bits]], dtype=m.voltage.dtype if self.name == "neurons64" else torch.float32) * (30.0 if n == "lif_int" else (6.0 if self.name == "neurons_evalmode" else 2.5))
                 if self.name == "neurons64":
                     x = x + 2.0 ** -30  # a component float32 cannot hold: a buffer that fell back to float32 loses it
                 outs[n] = m(x).clone()
@@ -257,7 +266,7 @@ class Zoo:
         if self.name == "reducers":
             for r in self.holder.children():
                 r.clear(keepshape=True)
-        elif self.name in ("neurons", "neurons64"):
+        elif self.name in ("neurons", "neurons64", "neurons_evalmode"):
             for m in self.holder.children():
                 m.clear()
         elif self.name != "classifier":
@@ -295,7 +304,7 @@ class Zoo:
 
 ZOO_EXTRA = ("dense_delta_qif_dastdpd", "direct_exp_glif2_mstdp", "dense_dexp_eif_dakernel")
 ZOO = ("dense_exp_lif_stdp", "dense_delta_lif_inthp_stdp", "direct_delta_alif_triplet", "lateral_dexp_adex_mstdpet", "conv_deltaplus_izh_kernel", "biclique_homeostasis",
-       "recurrent_dastdp", "reducers", "neurons", "neurons64", "classifier")
+       "recurrent_dastdp", "reducers", "neurons", "neurons64", "neurons_evalmode", "classifier")
 
 
 def eq(a, b):
